@@ -118,17 +118,33 @@ func rangeKeyStr(n, j int) string { return "" }
 //@   loop 0
 //@     invariant forall(0, rangeIndex(0), func(j int) bool { return !specInDir(rangeKeyStr(0, j), name) })
 
-// ReadDir paging: with n > 0 at most n entries, at least one unless io.EOF,
-// and the cursor advances by the number of entries returned; with n <= 0 no error.
+// ReadDir (io/fs.ReadDirFile): "returns a slice of up to n DirEntry values in
+// directory order. Subsequent calls on the same file will yield further
+// DirEntry values" - so every call, also one with n <= 0, starts at the cursor
+// and advances it by the number of entries it returns; with n > 0 at most n
+// entries and at least one unless io.EOF; with n <= 0 no error. Each entry
+// says what Stat says of the same name: a key of the map is a regular file
+// with its content's size, anything else listed is an implied directory.
+func specEntryOK(e fs.DirEntry, fsys map[string][]byte) bool {
+	x, ok := e.(*filesDirEntry)
+	return ok && x != nil && imp(hasFile(fsys, x.name), x.mode == 0 && len(x.data) == len(fsys[x.name])) &&
+		imp(!hasFile(fsys, x.name), x.mode == fs.ModeDir)
+}
+
 //@ func (*filesDir).ReadDir
 //@   props C23
 //@   requires d.n >= 0
 //@   ensures d.n >= old(d.n)
+//@   ensures result1 == nil ==> d.n == old(d.n) + len(result)
 //@   ensures n > 0 && result1 == nil ==> 0 < len(result)
 //@   ensures n > 0 && result1 == nil ==> len(result) <= n
-//@   ensures n > 0 && result1 == nil ==> d.n == old(d.n) + len(result)
 //@   ensures n > 0 && result1 != nil ==> result1 == io.EOF && len(result) == 0 && d.n == old(d.n)
-//@   ensures n <= 0 ==> result1 == nil && d.n == old(d.n)
+//@   ensures n <= 0 ==> result1 == nil
+//@   ensures forall(0, len(result), func(k int) bool { return specEntryOK(result[k], d.fsys) })
+//@   opt absindex yes
+//@   loop 1
+//@     invariant len(entries) == len(names)
+//@     invariant forall(0, rangeIndex(1), func(k int) bool { return specEntryOK(entries[k], d.fsys) })
 
 // ---------------------------------------------------------------------------
 // errors.go (C12): the public PanicError mirrors the runtime's chain of panics.
